@@ -167,6 +167,9 @@ func processBag(
 		if err != nil {
 			return err
 		}
+		if len(opcode) < 1 {
+			return fmt.Errorf("empty op field in record header")
+		}
 
 		if opcode[0] == OpBagChunk {
 			// data
@@ -260,6 +263,9 @@ func Bag2MCAP(w io.Writer, r io.Reader, opts *mcap.WriterOptions, messageCallbac
 			if err != nil {
 				return err
 			}
+			if len(conn) < 4 {
+				return fmt.Errorf("short conn field in record header: %d bytes", len(conn))
+			}
 			connID := binary.LittleEndian.Uint32(conn)
 			topic, err := extractHeaderValue(header, headerTopic)
 			if err != nil {
@@ -308,10 +314,16 @@ func Bag2MCAP(w io.Writer, r io.Reader, opts *mcap.WriterOptions, messageCallbac
 			if err != nil {
 				return err
 			}
+			if len(conn) < 4 {
+				return fmt.Errorf("short conn field in record header: %d bytes", len(conn))
+			}
 			connID := binary.LittleEndian.Uint32(conn)
 			time, err := extractHeaderValue(header, headerTime)
 			if err != nil {
 				return err
+			}
+			if len(time) < 8 {
+				return fmt.Errorf("short time field in record header: %d bytes", len(time))
 			}
 			nsecs := rosTimeToNanoseconds(time)
 			channelID, err := channelIDForConnection(connID)
